@@ -1,7 +1,10 @@
 #!/bin/bash
 # tools/try_mutant.sh <patch.diff> <Cxx> [Cyy…]  — apply a seeded change to /repo, run the checks, undo it.
+# Evidence files written during the mutant run are discarded (the committed evidence must come from the clean tree).
 patch="$1"; shift
 cd "$(dirname "$0")/.."
+save=$(mktemp -d)
+cp -r evidence "$save/" 2>/dev/null
 git -C /repo apply "$patch" || { echo "patch does not apply"; exit 3; }
 for c in "$@"; do
   out=$(./check "$c" 2>&1); code=$?
@@ -9,3 +12,5 @@ for c in "$@"; do
 done
 git -C /repo checkout -- .
 git -C /repo status --short | head -3
+rm -rf evidence && cp -r "$save/evidence" evidence 2>/dev/null
+rm -rf "$save"
